@@ -22,6 +22,10 @@ func TestVerif(t *testing.T) {
 	defer out.Close()
 	r := vfh.NewRand(vfh.Seed())
 	switch prop {
+	case "C01":
+		// the part of "any system state" that is read at (re)initialisation: every RA of a
+		// re-established interface carries the hardware address found at that (re)initialisation
+		verifReinitState(t, r, out)
 	case "C04":
 		verifC04Paths(t, r, out)
 	case "C05":
